@@ -18,6 +18,9 @@ def jOp (j : Json) : Except String Op := do
   | [.str "par", kvs] => pure (.updPars (← jAssoc jRat kvs))
   | [.str "var", kvs] => pure (.updVars (← jAssoc jRat kvs))
   | [.str "clear"] => pure .clear
+  | [.str "simF", t, n] => pure (.simulateF (← jRat t) (← optJ jNat n))
+  | [.str "tcF", pts] => pure (.timeCourseF (← jList jRat pts))
+  | [.str "scale", kvs] => pure (.scalePars (← jAssoc jRat kvs))
   | _ => .error s!"bad op {j.compress}"
 
 def termJ : STerm → Json
